@@ -271,6 +271,28 @@ st = fn_body(hs, "seq_at_time")
 st_rule = bool(re.search(r"row\s*\.\s*committed_at\s*\.\s*as_str\s*\(\s*\)\s*<=\s*at\s*&&\s*row\s*\.\s*seq\s*>\s*seq", st))
 
 
+FACTS = """theorem gen_commit_order :
+    commitOrder = [.governance, .refClosure, .keyIdentity, .writeLoop, .discardUnstaged, .journal, .flush] := by decide
+theorem gen_dry_run : (dryRunFirst && dryRunDiscardsShells && dryRunReturns && !dryRunWrites) = true := by decide
+theorem gen_write_loop :
+    (loopSkipsUnchanged && versionRuleOncePerElement && loopWritePropagatesError && statusRule &&
+     writePutsBeforeVersionLog && writePromotesPending && writeStampsVersionAndSeq && markChangedRule) = true := by decide
+theorem gen_abort : (executeOrder && abortOnPlanError && abortDiscardsShells && shellIsPending) = true := by decide
+theorem gen_check_failure_discards : checkFailureDiscardsShells = true := by decide
+theorem gen_ensure_consults_staged : ensureConsultsStaged = true := by decide
+theorem gen_plan :
+    (declareBeforeApply && passFilter) = true ∧ planPasses = 3 ∧ passCreateConcept = 0 ∧ passUpsertConcept = 1 ∧
+    passEnsureProposition = 1 ∧ passOther = 2 ∧
+    passExplicit = ["CreateConcept", "EnsureProposition", "UpsertConcept"] ∧
+    declaredInPhase1 = ["CreateActivity", "CreateAssertion", "CreateConcept", "CreateEvidence"] := by decide
+theorem gen_locks :
+    lockKml = .exclusive ∧ lockKql = .shared ∧ lockMeta = .shared ∧
+    (lockHeldAcrossKml && lockHeldAcrossKql && lockHeldAcrossMeta) = true := by decide
+theorem gen_seq : (seqIsNext && seqDurableBeforeUse && journalCarriesCxSeq && versionRowCarriesCxSeq) = true := by decide
+theorem gen_history : (historyReadsAtOrBefore && historyTakesGreatest && seqAtTimeRule) = true := by decide
+"""
+
+
 def b(x):
     return "true" if x else "false"
 
@@ -364,26 +386,19 @@ def historyReadsAtOrBefore : Bool := {b(ea_le and es_le)}
 def historyTakesGreatest : Bool := {b(ea_max and es_max)}
 def seqAtTimeRule : Bool := {b(st_rule)}
 
-theorem gen_commit_order :
-    commitOrder = [.governance, .refClosure, .keyIdentity, .writeLoop, .discardUnstaged, .journal, .flush] := by decide
-theorem gen_dry_run : (dryRunFirst && dryRunDiscardsShells && dryRunReturns && !dryRunWrites) = true := by decide
-theorem gen_write_loop :
-    (loopSkipsUnchanged && versionRuleOncePerElement && loopWritePropagatesError && statusRule &&
-     writePutsBeforeVersionLog && writePromotesPending && writeStampsVersionAndSeq && markChangedRule) = true := by decide
-theorem gen_abort : (executeOrder && abortOnPlanError && abortDiscardsShells && shellIsPending) = true := by decide
-theorem gen_check_failure_discards : checkFailureDiscardsShells = true := by decide
-theorem gen_ensure_consults_staged : ensureConsultsStaged = true := by decide
-theorem gen_plan :
-    (declareBeforeApply && passFilter) = true ∧ planPasses = 3 ∧ passCreateConcept = 0 ∧ passUpsertConcept = 1 ∧
-    passEnsureProposition = 1 ∧ passOther = 2 ∧
-    passExplicit = ["CreateConcept", "EnsureProposition", "UpsertConcept"] ∧
-    declaredInPhase1 = ["CreateActivity", "CreateAssertion", "CreateConcept", "CreateEvidence"] := by decide
-theorem gen_locks :
-    lockKml = .exclusive ∧ lockKql = .shared ∧ lockMeta = .shared ∧
-    (lockHeldAcrossKml && lockHeldAcrossKql && lockHeldAcrossMeta) = true := by decide
-theorem gen_seq : (seqIsNext && seqDurableBeforeUse && journalCarriesCxSeq && versionRowCarriesCxSeq) = true := by decide
-theorem gen_history : (historyReadsAtOrBefore && historyTakesGreatest && seqAtTimeRule) = true := by decide
-
 end AndaVerif.Gen.NexusOrder
 """
 write_gen(gen, "NexusOrder.lean", text)
+
+# the kernel-checked facts live in their own module: when an edit breaks one of them the data module
+# (and with it the model and its driver) still builds, so the model runs the *edited* program and
+# the harness can look for the input on which the property now fails
+facts = f"""/- GENERATED by bin/translate/c17_nexus_order.py — facts about Gen/NexusOrder.lean that the proofs of
+C17 / C18 start from — do not edit. -/
+import AndaVerif.Gen.NexusOrder
+namespace AndaVerif.Gen.NexusOrder
+
+FACTS
+end AndaVerif.Gen.NexusOrder
+"""
+write_gen(gen, "NexusOrderFacts.lean", facts.replace("FACTS", FACTS))
